@@ -111,7 +111,7 @@ def run(ctx):
     h = codec.H()
     rng = random.Random(ctx.seed + 7)
     thorough = ctx.tier == 'thorough' or ctx.escalate
-    n = 2500 if thorough else 300
+    n = 6000 if thorough else 300
     ctx.coverage['rule'] = ('documents of the independent writers of C03 (ZINC) and C05 (JSON), incl. zone-less date-times, non-official versions 2.5 / 3.0.0 / 1.0 / 4.0, '
                             'pushed through parse -> dump (both formats) -> parse -> dump; distinct by source document')
     docs = []
